@@ -481,11 +481,14 @@ pub fn minimise(mut r: Replay, scratch: &mut Scratch, budget_s: u64) -> Replay {
         r.sched_note();
         r.violation = v;
         r.digest = digest;
-        let mut pinned = r.clone();
-        pinned.sched = SchedSpec::Replay { decisions };
-        let (vs2, d2, _) = replay_in_fresh_process(&pinned, scratch);
-        if same_class(&vs2, &class).is_some() && d2 == r.digest {
-            r = pinned;
+        // a calm schedule (with its few deviations) is the more readable replay; pin the full decision list otherwise
+        if !matches!(r.sched, SchedSpec::Calm { .. }) {
+            let mut pinned = r.clone();
+            pinned.sched = SchedSpec::Replay { decisions };
+            let (vs2, d2, _) = replay_in_fresh_process(&pinned, scratch);
+            if same_class(&vs2, &class).is_some() && d2 == r.digest {
+                r = pinned;
+            }
         }
     }
     r.note = format!("{}; minimised with {} re-executions", r.note, tries.get());
